@@ -201,10 +201,15 @@ def run(rep: common.Report, tier: str, seed: int):
     quick = tier == 'quick'
     cases, lits = [], []
     hist = {'ops': {}, 'lengths': {}}
-    for _ in range(30 if quick else 300):
+    # directed histories that run first (kept from failures found earlier): a quiet export before and after a verbose one (fix 56db44c),
+    # estimates read between two generations of the tool-path
+    directed = [['pgm_quiet', 'xlsx', 'pgm', 'pgm_quiet', 'xlsx'], ['toolpath', 'pgm_quiet', 'toolpath', 'pgm', 'xlsx', 'pgm_quiet']]
+    for i_case in range(30 if quick else 300):
         sc = Scenario(rng)
         n = rng.randint(4, 9)
         ops = [rng.choice(OPS) for _ in range(n)]
+        if i_case < len(directed):
+            ops = directed[i_case] + ops[:3]
         # make sure some operation is repeated
         ops.append(rng.choice(ops))
         ops.append(rng.choice(['pgm', 'pgm_quiet', 'toolpath', 'write', 'transform', 'write_stroke']))
